@@ -489,3 +489,44 @@ def map_retry_batches(which, failing: int, nfail: int, c0: int, c1: int, c2: int
 
 SCN["map_retry_batches"] = (["0 <= failing < 2 and 0 <= nfail <= 3"], 600, 1800, ("quick", "thorough"))
 scn.__dict__["map_retry_batches"] = map_retry_batches
+
+
+def fan_catch_paths(which, kind: int, rp: int, srp: int, c0: int, c1: int, c2: int, c3: int, c4: int, c5: int, c6: int, c7: int):
+    """A Parallel (kind 0) / Map (kind 1) state WITHOUT Retry and MaxConcurrency whose branch fails and whose Catcher
+    places the Error Output with ResultPath $.err / null / $ (rp); the state's own ResultPath is absent / $.out (srp).
+    The Catcher's ResultPath applies to the state's ORIGINAL input."""
+    kind = cint(kind, 0, 1); rp = cint(rp, 0, 2); srp = cint(srp, 0, 1)
+    crp = pick(["$.err", None, "$"], rp)
+    if kind == 0:
+        F = {"Type": "Parallel", "Branches": [{"StartAt": "A", "States": {"A": task("fa", End=True)}},
+                                              {"StartAt": "B", "States": {"B": {"Type": "Pass", "End": True}}}]}
+    else:
+        F = {"Type": "Map", "ItemsPath": "$.items", "Iterator": {"StartAt": "A", "States": {"A": task("fa", End=True)}}}
+    F["Next"] = "Z"
+    F["Catch"] = [{"ErrorEquals": ["States.ALL"], "ResultPath": crp, "Next": "R"}]
+    if srp:
+        F["ResultPath"] = "$.out"
+    # (R wraps what it receives: a final output with a top-level "Error" member would be reported FAILED - the
+    #  in-band failure convention recorded as a known finding of C01)
+    asl = {"StartAt": "F", "States": {"F": F, "Z": {"Type": "Pass", "End": True}, "R": {"Type": "Pass", "Parameters": {"c.$": "$"}, "End": True}}}
+    data = {"x": 1, "items": [{"i": 0}]}
+
+    def chk(run, inst, mon):
+        got = s2.result_of()
+        if got[0] != "SUCCEEDED" or not isinstance(got[1], dict) or set(got[1]) != {"c"}:
+            return "outcome %r" % (got,)
+        o = got[1]["c"]
+        if crp == "$.err":
+            ok = isinstance(o, dict) and o.get("x") == 1 and o.get("items") == data["items"] and (o.get("err") or {}).get("Error") == "Boom" and set(o) == {"x", "items", "err"}
+        elif crp is None:
+            ok = o == data
+        else:
+            ok = isinstance(o, dict) and o.get("Error") == "Boom" and set(o) == {"Error", "Cause"}
+        if not ok:
+            return "C07 Catcher ResultPath %r must place the Error Output into the state's original input %r: got %r" % (crp, data, o)
+        return ""
+    return _run(asl, data, [c0, c1, c2, c3, c4, c5, c6, c7], {"fa": worker(True, "Boom", "fa")}, which, "STANDARD", None, extra_check=chk, max_steps=200)
+
+
+SCN["fan_catch_paths"] = (["0 <= kind < 2 and 0 <= rp < 3 and 0 <= srp < 2"], 600, 1800, ("quick", "thorough"))
+scn.__dict__["fan_catch_paths"] = fan_catch_paths
